@@ -54,7 +54,9 @@ type issuerVariant struct {
 }
 
 var staticIssuers = []issuerVariant{{"https://op.example.com", false}, {"https://op.example.com/", false}, {"https://op.example.com/oidc", false},
-	{"http://op.example.com:8080", true}, {"https://op.example.com/a/b/", true}, {"https://user:pw@op.example.com:8443/t", false}}
+	{"http://op.example.com:8080", true}, {"https://op.example.com/a/b/", true}, {"https://user:pw@op.example.com:8443/t", false},
+	// RFC 3986 equivalent spellings: the library keeps the configured string verbatim everywhere
+	{"HTTPS://OP.EXAMPLE.COM", false}, {"https://op.example.com:443/oidc", false}, {"https://op.example.com./", false}, {"Http://op.example.com:80", true}}
 var dynamicPaths = []issuerVariant{{"", false}, {"/", false}, {"/oidc", false}, {"oidc", true}, {"/a/b/", false}, {"", true}, {"/oidc", true}}
 
 func randomRequest(r drv.Rand) request {
@@ -128,8 +130,15 @@ func pkceCases() []pkceCase {
 				pkceCase{k, m, "VAbsent", verifier, ""})
 		}
 		out = append(out, pkceCase{k, "", "VNone", "", verifier}, pkceCase{k, "", "VAbsent", "", ""})
-		// method names that are neither S256 nor plain (case, white space, keyword): never advertised;
-		// VerifyCodeChallenge hashes for exactly "S256" and compares as is otherwise
+	}
+	return out
+}
+
+// method names that are neither S256 nor plain (case, white space, keyword): never advertised;
+// VerifyCodeChallenge hashes for exactly "S256" and compares as is otherwise
+func pkceNearCases() []pkceCase {
+	var out []pkceCase
+	for _, k := range clientKinds {
 		for _, m := range pkceNearMisses {
 			out = append(out, pkceCase{k, m, "VS256", opfix.S256(verifier), verifier}, pkceCase{k, m, "VPlain", verifier, verifier})
 		}
@@ -145,7 +154,8 @@ var roCursor int
 var tokCursor int // walks through the client kinds for the token flows
 var tokJWT int    // access-token type of the token flows
 
-const nTokSeq = 4  // positions of a request sequence at which the token flows are run
+const nTokSeq = 4 // positions of a request sequence at which the token flows are run
+var pkceNearCursor int
 var pkceCursor int // walks through pkceCases() across configurations so that every cell is visited evenly
 
 func optStrList(l [nEps]*string) string {
@@ -158,6 +168,10 @@ func optStrList(l [nEps]*string) string {
 
 // runConfig emits every case of one configuration on both routers.
 func runConfig(w *emit.Writer, r drv.Rand, c config, sweep string, nPkce int) {
+	nRo := nPkce // request-object probes per (configuration, router)
+	if nRo < 8 {
+		nRo = 2
+	}
 	f, err := build(c)
 	if err != nil {
 		fmt.Fprintln(os.Stderr, "fixture:", err)
@@ -275,10 +289,16 @@ func runConfig(w *emit.Writer, r drv.Rand, c config, sweep string, nPkce int) {
 
 		// ---- PKCE: client kind x challenge method x verifier relation (absent included)
 		if eps[iAuth].Kind != epNil && eps[iToken].Kind != epNil {
-			all := pkceCases()
-			for n := 0; n < nPkce; n++ {
-				pc := all[pkceCursor%len(all)]
-				pkceCursor += 1 + r.IntN(3)
+			all, near := pkceCases(), pkceNearCases()
+			for n := 0; n < nPkce+nPkce/2; n++ { // the 48 cells proper, then (half as many) near-miss method names
+				var pc pkceCase
+				if n < nPkce {
+					pc = all[pkceCursor%len(all)]
+					pkceCursor += 1 + r.IntN(3)
+				} else {
+					pc = near[pkceNearCursor%len(near)]
+					pkceNearCursor += 1 + r.IntN(3)
+				}
 				ea, et := url.Values{}, url.Values{}
 				ch := emit.None
 				if pc.method != "" {
@@ -304,7 +324,7 @@ func runConfig(w *emit.Writer, r drv.Rand, c config, sweep string, nPkce int) {
 
 		// ---- request object: client kind x placement of the parameters (round-robin over the 20 cells)
 		if eps[iAuth].Kind != epNil {
-			for n := 0; n < nPkce; n++ {
+			for n := 0; n < nRo; n++ {
 				k := clientKinds[roCursor%len(clientKinds)]
 				pl := placements[(roCursor/len(clientKinds))%len(placements)]
 				roCursor += 1 + r.IntN(3)
@@ -331,9 +351,10 @@ type authority struct {
 }
 
 var (
-	isSchemes = []string{"https://", "http://", "HTTPS://", "ftp://", "//"}
+	isSchemes = []string{"https://", "http://", "HTTPS://", "ftp://", "//", "HTTP://", "Http://", "hTTp://", "HttpS://", "FTP://"}
 	isAuths   = []authority{{"op.example.com", false}, {"op.example.com:8443", false}, {"user:pw@op.example.com", false}, {"[::1]:8080", false},
-		{"127.0.0.1", false}, {"", true}, {":8080", true}, {"user@", true}}
+		{"127.0.0.1", false}, {"", true}, {":8080", true}, {"user@", true},
+		{"OP.EXAMPLE.COM", false}, {"op.example.com:80", false}, {"op.example.com:443", false}, {"op.example.com.", false}}
 	isPaths  = []string{"", "/", "/oidc", "/a/b/", "/%2F"}
 	isQuery  = []string{"", "?", "?&", "?a=b", "?=", "??"}
 	isFrag   = []string{"", "#", "#frag", "#?", "#%41"}
@@ -346,6 +367,10 @@ var (
 		{"https://op.example.com/#", false, "F16"}, {"https://op.example.com?#", false, "F16"}, {"https://op.example.com/oidc?&&", false, "F16"},
 		// a port is not a host
 		{"https://:8080", true, "port-only"}, {"https://:443/oidc", true, "port-only"},
+		// scheme names are case-insensitive: http however it is spelled
+		{"HTTP://op.example.com", false, "http-case"}, {"Http://op.example.com/oidc", false, "http-case"}, {"hTTp://op.example.com:8080", false, "http-case"},
+		{"HTTP://OP.EXAMPLE.COM", false, "http-case"}, {"httP://op.example.com:80/", false, "http-case"}, {"HTTP://127.0.0.1", false, "http-case"},
+		{"HTTPS://op.example.com", false, "https-case"}, {"htTPs://OP.example.com:443", false, "https-case"},
 		// keyword-like values: relative references without a host
 		{"null", true, "keyword"}, {"NULL", true, "keyword"}, {"nil", true, "keyword"}, {"undefined", true, "keyword"}, {"true", true, "keyword"},
 		{"false", true, "keyword"}, {"0", true, "keyword"}, {"[]", true, "keyword"}, {"{}", true, "keyword"},
@@ -443,7 +468,7 @@ func issuerCase(w *emit.Writer, api string, is issuerString, insecure bool) {
 	split := emit.None
 	if perr == nil {
 		// the guard wf of C19_proofs.v: url.Parse agrees with how the string was built
-		if (is.hostless && u.Hostname() != "") || (strings.HasPrefix(is.raw, "http:") && u.Scheme != "http") {
+		if (is.hostless && u.Hostname() != "") || (strings.HasPrefix(strings.ToLower(is.raw), "http:") && u.Scheme != "http") {
 			fmt.Fprintf(os.Stderr, "issuer catalogue inconsistent with url.Parse: %q\n", is.raw)
 			os.Exit(2)
 		}
@@ -551,8 +576,8 @@ func main() {
 			}
 		}
 	}
-	nGrid := cfg.Count(192, len(grid))
-	nPkce := 4
+	nGrid := cfg.Count(96, len(grid))
+	nPkce := 3
 	if !cfg.Quick {
 		nPkce = 8
 	}
@@ -587,7 +612,7 @@ func main() {
 		runConfig(w, r, c, "grid", nPkce)
 	}
 	// ---- mixed endpoints (default / custom / absolute URL / nil)
-	for i := 0; i < cfg.Count(32, 400); i++ {
+	for i := 0; i < cfg.Count(16, 400); i++ {
 		c := mk(r.IntN(256))
 		for j := range c.Eps {
 			switch k := r.IntN(5); k {
@@ -609,6 +634,15 @@ func main() {
 	prod := issuerProduct()
 	for _, is := range specials {
 		for _, api := range []string{"ApiValidate", "ApiNewProvider"} {
+			issuerCase(w, api, is, false)
+			issuerCase(w, api, is, true)
+		}
+	}
+	// every spelling of the scheme x every authority, no markers: with and without the opt-in
+	for i, sc := range isSchemes {
+		for j, a := range isAuths {
+			is := issuerString{sc + a.s + drv.Pick(r, []string{"", "/", "/oidc"}), a.hostless, "scheme-sweep"}
+			api := []string{"ApiValidate", "ApiNewProvider"}[(i+j)%2]
 			issuerCase(w, api, is, false)
 			issuerCase(w, api, is, true)
 		}
@@ -648,10 +682,10 @@ func main() {
 	err := w.Close(emit.Meta{Property: "C19", Tier: cfg.Tier, Seed: cfg.Seed, Exhaustive: !cfg.Quick && cfg.N == 0,
 		Rule: "grid = 2^5 flags x 2^3 capabilities x {default, custom paths} x {static, host, forwarded} (thorough: all 1536 points, quick: seeded sample), " +
 			"each on both routers with a random request (Host, Forwarded) and issuer variant; for the host / forwarded strategies a sequence of 6 requests (same Host + other Forwarded, other Host + same Forwarded, the first again, no Forwarded, the first again) goes to the one provider instance, one doc case per request; mixed = random per-endpoint default/custom/URL/nil; " +
-			"per (configuration, router): 12 grant strings; PKCE cells client kind x {S256, plain, no challenge} x {VS256, VPlain, VNone, VAbsent} visited round-robin (4 per configuration in quick, 8 in thorough); request objects over client kind x parameter placement (all outside / redirect_uri, state, scope, response_type only inside), same budget; custom endpoint paths take a random shape (trailing slash, no leading slash, double slash, nested) and every advertised URL is fetched as advertised; " +
+			"per (configuration, router): 12 grant strings; PKCE cells client kind x {S256, plain, no challenge} x {VS256, VPlain, VNone, VAbsent} visited round-robin (3 per (configuration, router) in quick, 8 in thorough, and a third / half as many cells with near-miss method names); request objects over client kind x parameter placement (all outside / redirect_uri, state, scope, response_type only inside), 2 per (configuration, router) in quick, 8 in thorough; custom endpoint paths take a random shape (trailing slash, no leading slash, double slash, nested) and every advertised URL is fetched as advertised; " +
 			"token flows (kind=tokens): per (configuration, router) one client kind (basic / post / private_key_jwt / public, round-robin; credentials sent as registered; every code flow bound to an S256 challenge) runs code, refresh, client_credentials, jwt-bearer, token exchange (access / refresh / ID token requested; subject token = access, ID or refresh token of a code flow), device_code and implicit (id_token, id_token token) in a random order under the request of the doc case - all ten at the first position of a request sequence, a random five at positions 1-3 - with JWT access tokens in two thirds of the cases (client AccessTokenType and JWTProfileTokenType); the iss of every ID token and JWT access token is read; the two routers are visited in a random order; " +
 			"12 + 5 grant strings: the known names, wrong case, white space (blank, tab, CR, LF), Unicode case folding (U+017F, U+212A), trailing slash, short names and keyword-like values (null, undefined, true, 0, [], {}); PKCE method names s256 / 'S256 ' / ' S256' / PLAIN / null besides S256 and plain; " +
-			"issuer strings = scheme x authority x path x query marker x fragment marker product + specials (keyword-like values, white space plain and encoded, markers behind 1 KiB / 4 KiB of path); Discover = asked x served variants (white space, %20, +, long s, Kelvin sign, host / path case, keywords, issuers beyond 4 KiB differing in the last byte). " +
+			"issuer strings = scheme x authority x path x query marker x fragment marker product + specials (http / https in upper and mixed case, keyword-like values, white space plain and encoded, markers behind 1 KiB / 4 KiB of path); every scheme spelling (https, http, HTTPS, HTTP, Http, hTTp, HttpS, ftp, FTP, none) x every authority (incl. upper-case host, default ports :80 / :443, trailing dot) without markers, with and without the opt-in; Discover = asked x served variants (white space, %20, +, long s, Kelvin sign, host / path case, keywords, issuers beyond 4 KiB differing in the last byte). " +
 			"Non-trivial = model path class != 0 (everything but the empty-issuer reject and token cases in which no flow is available); distinct = distinct (input, path class).",
 		Extra: map[string]any{"grid_points": len(grid), "grid_total": 256 * 2 * 3},
 	})
